@@ -75,6 +75,11 @@ type c07Opts struct {
 	SrcMax   int64  `json:"src_max_rows,omitempty"`
 	// encryption of the source file (same modes and keys as Encrypt)
 	SrcEncrypt string `json:"src_encryption,omitempty"`
+	// "file-merge" path: the source declares column c00 (required int64, unique keys) as its sorting column,
+	// so that MergeRowGroups builds a sorted merge: "disjoint" = row groups with disjoint key ranges
+	// (segments = the file row groups), "overlap" = every row group shares half of its key range with the
+	// next one (refined segments: row-range views and heap merges)
+	SrcSorted string `json:"src_sorted,omitempty"`
 	// the file is written without bloom filters (members of the "multi" sub-check only)
 	NoBloom bool `json:"no_bloom,omitempty"`
 }
@@ -431,7 +436,21 @@ func c07GenCase(ctx *core.Ctx, index int) *c07Case {
 	if (cs.Path == "buffer" || cs.Path == "file-reencode" || cs.Path == "file-merge") && o.DictMax == 0 && r3.Intn(3) == 0 {
 		o.DictMax = []int64{16, 64, 256}[r3.Intn(3)]
 	}
+	// round 4: sorted merges, own stream
+	r4 := ctx.Rand(fmt.Sprintf("files/%d/round4", index))
+	if cs.Path == "file-merge" && r4.Intn(2) == 0 {
+		o.SrcSorted = []string{"disjoint", "disjoint", "overlap"}[r4.Intn(3)]
+		o.SrcMax = []int64{50, 100}[r4.Intn(2)]
+		o.FlushEvery = 0
+		cs.Cols[0] = c07Col{Name: cs.Cols[0].Name, Kind: "int64", Enc: []string{"", "plain", "dict", "delta"}[r4.Intn(4)],
+			Bits: cs.Cols[0].Bits, Alph: 0}
+	}
 	cs.rows = c07GenRows(r, cs.Cols, cs.N)
+	if o.SrcSorted != "" {
+		for i := range cs.rows {
+			cs.rows[i][0] = []c07Val{{U: uint64(cs.sortKey(i))}}
+		}
+	}
 	if cs.Path == "any" {
 		// Writer.Write(any) goes through reflect.Value.Float(): a float32 signalling NaN is stored quieted
 		// (the stored value differs from the one handed over; that is C01's subject, F21 family), so
@@ -449,6 +468,18 @@ func c07GenCase(ctx *core.Ctx, index int) *c07Case {
 		}
 	}
 	return cs
+}
+
+// sortKey: the key of source row i (sorted sources): unique, ascending inside every source row group of
+// SrcMax rows; "overlap": row group g covers keys [g*S, g*S+2S) in steps of 2 with parity g%2, i.e. its
+// upper half interleaves with the lower half of row group g+1
+func (cs *c07Case) sortKey(i int) int64 {
+	S := int(cs.Opts.SrcMax)
+	if cs.Opts.SrcSorted != "overlap" || S <= 0 {
+		return int64(i) * 3
+	}
+	g, p := i/S, i%S
+	return int64(2*(g*(S/2)+p) + g%2)
 }
 
 func c07Codec(name string) compress.Codec {
@@ -521,6 +552,9 @@ func (cs *c07Case) options(src bool) []parquet.WriterOption {
 		}
 	} else if ec := cs.encryptionMode(o.SrcEncrypt); ec != nil {
 		opts = append(opts, parquet.WithEncryption(ec))
+	}
+	if src && o.SrcSorted != "" {
+		opts = append(opts, parquet.SortingWriterConfig(parquet.SortingColumns(parquet.Ascending(cs.Cols[0].Name))))
 	}
 	return opts
 }
@@ -762,6 +796,11 @@ func (cs *c07Case) write() (data []byte, err error) {
 		for _, rg := range sf.RowGroups() {
 			cs.srcRows = append(cs.srcRows, rg.NumRows())
 		}
+		if o.SrcSorted != "" {
+			// the merge emits the rows in key order (keys are unique): that is the order the output row
+			// groups are attributed in
+			sort.SliceStable(cs.rows, func(a, b int) bool { return int64(cs.rows[a][0][0].U) < int64(cs.rows[b][0][0].U) })
+		}
 		switch cs.Path {
 		case "file-merge":
 			if len(sf.RowGroups()) > 0 {
@@ -882,6 +921,9 @@ func (cs *c07Case) describe(seed int64) map[string]any {
 
 func c07RunCase(ctx *core.Ctx, b *c07Batch, cs *c07Case) {
 	ctx.Hist("files.path", cs.Path)
+	if cs.Opts.SrcSorted != "" {
+		ctx.Hist("files.sorted-merge", cs.Opts.SrcSorted)
+	}
 	data, err := cs.write()
 	if err != nil {
 		ctx.Hist("files.write-error", cs.Path+": "+c07ErrClass(err))
@@ -990,6 +1032,10 @@ func c07CheckChunk(ctx *core.Ctx, b *c07Batch, cs *c07Case, f *parquet.File, rgi
 			if why := cs.misplaced[[2]int{rgi, leaf}]; why != "" {
 				// the footer does not name a region of its own for this chunk's filter
 				situation = "filter-region-" + why
+			} else if cs.packedMissesEarlierSegment(ctx, b, f, rgi, ci, col, toks[i]) {
+				// WriteRowGroup(merge of file row groups) packed several source row groups into this one and
+				// the value was not written with the last of them
+				situation = "packed-merge-filter-misses-earlier-segment"
 			} else if cs.Opts.Encrypt != "" && cs.Opts.BloomComp == "gzip" && size%32 != 0 {
 				// the reader decompresses the filter of an encrypted column eagerly: its Size() is the bitset's,
 				// a whole number of 32-byte blocks; anything else is the length of the gzip stream
@@ -1430,6 +1476,10 @@ func c07StrategyL2(ctx *core.Ctx, b *c07Batch, cs *c07Case, f *parquet.File, rgi
 		// WriteRowGroup(MergeRowGroups(file row groups)): writeSegmentsPacked batches the source row groups
 		// (Lean `packBatches`); a batch of >= 2 is re-encoded into ONE output row group whose filter is
 		// sized once for the batch (Lean `packedPresize` = configureBloomFiltersForSegments).
+		if cs.Opts.SrcSorted == "overlap" { // refined segments (row-range views, heap merges): not predicted
+			ctx.Hist("files.strategy", "skipped-presize-unknown")
+			return
+		}
 		g, ok := cs.packedGroup(ctx, b, f, rgi)
 		if !ok || len(g.segs) < 2 {
 			ctx.Hist("files.strategy", "skipped-presize-unknown")
@@ -1744,6 +1794,27 @@ func (cs *c07Case) packedGroup(ctx *core.Ctx, b *c07Batch, f *parquet.File, rgi 
 	return cs.packed[rgi], true
 }
 
+// packedMissesEarlierSegment: the chunk belongs to a packed batch of >= 2 source row groups ("file-merge"
+// path) and the value with token tok does not occur in the last source row group of the batch.
+func (cs *c07Case) packedMissesEarlierSegment(ctx *core.Ctx, b *c07Batch, f *parquet.File, rgi, ci int, col c07Col, tok string) bool {
+	if cs.Path != "file-merge" || cs.Opts.SrcSorted == "overlap" {
+		return false
+	}
+	g, ok := cs.packedGroup(ctx, b, f, rgi)
+	if !ok || len(g.segs) < 2 {
+		return false
+	}
+	lo, hi := cs.srcSpan(g.segs[len(g.segs)-1])
+	for _, row := range cs.rows[lo:hi] {
+		for _, v := range row[ci] {
+			if col.token(v) == tok {
+				return false
+			}
+		}
+	}
+	return true
+}
+
 // corpus case: {"path":..,"cols":[..],"opts":{..},"rows":[[["tok",..] per column] per row]}; tokens as
 // in the driver protocol (decimal bit patterns, hex bytes, "e" = empty)
 type c07CorpusCase struct {
@@ -1885,7 +1956,9 @@ func RunC07Files(ctx *core.Ctx) {
 		}
 		return
 	}
-	total := ctx.Scale(6000, 120000)
+	// thorough: 40 000 files per build (was 120 000, ~35 CPU-minutes per build: the most expensive
+	// sub-check of C07; thorough cases are also larger, see c07GenCase)
+	total := ctx.Scale(6000, 40000)
 	workers := 14
 	jobs := make(chan int, total)
 	for i := 0; i < total; i++ {
